@@ -893,6 +893,8 @@ def gen_knobs(rng, case, P=None):
             # everything in one or two chunks: more than 10000 reads (the progress batch size) per chunk
             buf = max(floor, total // rng.randint(1, 2) + 1000)
     workers = rng.randint(*P["workers"])
+    if case.get("meta", {}).get("big") == 2 and rng.random() < 0.5:
+        workers = P["workers"][0]  # few workers, several large chunks: a worker gets a large chunk and then another
     knobs = {
         "workers": workers,
         "buffer_size": buf,
